@@ -9,10 +9,14 @@ Every occurrence, OUTSIDE `#[cfg(test)]` items, of
 is emitted as a row (file, enclosing fn, kind, ordinal of that kind within the fn).  The key does not mention
 line numbers, so pure line shifts do not change it; a NEW site, a site MOVED to another function or a site
 whose kind changed produces a row that `Spec/PanicReview.v` does not classify, which breaks the proof obligation
-`C06_panic_sites_all_reviewed`.
+`C06_panic_sites_all_reviewed`.  In addition every function that owns a row is fingerprinted (`fn_prints`): the reviewed
+verdicts (guards, bounds, "send path only") were read off that exact text, so ANY edit of such a function - another
+operator or argument at an existing site, a weakened guard - breaks `C06_panic_owner_functions_unchanged` until the
+function is reviewed again (python3 translate/mk_panicreview.py --accept-prints).
 
 Not a Rust parser: a tokeniser over comment-stripped text with string literals blanked.
 """
+import hashlib
 import re
 from rustsrc import Source, AnchorLost, match_close
 
@@ -30,6 +34,11 @@ FILES = [
     'h3/src/proto/stream.rs', 'h3/src/proto/coding.rs', 'h3/src/proto/push.rs', 'h3/src/qpack/field.rs',
     'h3/src/server/stream.rs', 'h3/src/shared_state.rs', 'h3/src/error/connection_error_creators.rs',
     'h3/src/webtransport/session_id.rs',
+    # errors handed to the application (Display / Debug / conversions run on peer-chosen codes), the quic trait module,
+    # configuration, extensions, and the WebTransport crate (session accept, stream wrappers incl. AsyncRead)
+    'h3/src/error/error.rs', 'h3/src/error/internal_error.rs', 'h3/src/error/codes.rs', 'h3/src/error/mod.rs',
+    'h3/src/quic.rs', 'h3/src/config.rs', 'h3/src/ext.rs',
+    'h3-webtransport/src/lib.rs', 'h3-webtransport/src/server.rs', 'h3-webtransport/src/stream.rs',
 ]
 
 KINDS = ['unwrap', 'expect', 'panic', 'unreachable', 'assert', 'debug_assert', 'todo', 'index', 'index_const',
@@ -352,6 +361,7 @@ def scan_file(repo, rel):
     rows = []
     counters = {}
     lines = {}
+    owners = {}
     for pos, kind in sorted(found):
         fn = scope_of(pos)
         if kind in ('arith', 'shift', 'cast') and fn == '<top>':
@@ -360,23 +370,35 @@ def scan_file(repo, rel):
         counters[key] = counters.get(key, 0) + 1
         rows.append((rel, fn, kind, counters[key]))
         lines[(rel, fn, kind, counters[key])] = src.line_of(pos)
-    return rows, lines
+        owners[fn] = True
+    # fingerprint of every function that owns a row: its whole body, comments stripped, string contents blanked,
+    # white space removed.  Changing an operator, an argument or a guard anywhere in such a function changes it.
+    prints = []
+    for (a, b, nm) in named:
+        if nm in owners:
+            body = re.sub(r'\s+', '', text[a:b + 1])
+            h = int(hashlib.sha256(body.encode()).hexdigest()[:15], 16)
+            prints.append((rel, nm, h, src.line_of(a)))
+    return rows, lines, prints
 
 
 def extract(repo):
     rows, spans = [], {}
     all_lines = {}
+    prints = []
     for rel in FILES:
         try:
-            r, lines = scan_file(repo, rel)
+            r, lines, pr = scan_file(repo, rel)
         except FileNotFoundError:
             raise AnchorLost('receive-path file missing: ' + rel)
         rows += r
         all_lines.update(lines)
+        prints += pr
         spans[rel] = (1, len(r))
     if len(rows) < 50:
         raise AnchorLost('implausibly few panic sites')
-    f = {'rows': rows, 'lines': {'|'.join([a, b, c, str(d)]): l for (a, b, c, d), l in all_lines.items()}}
+    f = {'rows': rows, 'lines': {'|'.join([a, b, c, str(d)]): l for (a, b, c, d), l in all_lines.items()},
+         'prints': [(a, b, c) for (a, b, c, _) in prints], 'print_lines': {a + '|' + b: l for (a, b, _, l) in prints}}
     return f, spans
 
 
@@ -402,6 +424,13 @@ def render(f):
         L.append('  mk_site %s %s %s %d%s' % (coq_str(fl), coq_str(fn), kind_ctor(kind), o, ';' if n + 1 < len(rows) else ''))
     L.append('].')
     L.append('Definition n_sites : N := %d.' % len(rows))
+    L.append('(* fingerprint (60 bits of SHA-256 of the comment-free, blank-free body) of every function that owns a row above *)')
+    L.append('Record fn_print := mk_print { p_file : string; p_fn : string; p_hash : N }.')
+    L.append('Definition fn_prints : list fn_print := [')
+    pr = f['prints']
+    for n, (fl, fn, h) in enumerate(pr):
+        L.append('  mk_print %s %s %d%s' % (coq_str(fl), coq_str(fn), h, ';' if n + 1 < len(pr) else ''))
+    L.append('].')
     return '\n'.join(L) + '\n'
 
 
@@ -411,6 +440,9 @@ if __name__ == '__main__':
     repo = sys.argv[1] if len(sys.argv) > 1 else '/repo'
     f, _ = extract(repo)
     hist = collections.Counter(r[2] for r in f['rows'])
+    if '-p' in sys.argv:
+        for r in f['prints']:
+            print(r)
     if '-v' in sys.argv:
         for r in f['rows']:
             print('%s:%d\t%s\t%s\t%d' % (r[0], f['lines']['|'.join([r[0], r[1], r[2], str(r[3])])], r[1], r[2], r[3]))
